@@ -2,6 +2,14 @@ pub mod c01;
 pub mod c02;
 pub mod c03;
 pub mod c04;
+pub mod c05;
+pub mod c06;
+pub mod c07;
+pub mod c09;
+pub mod c10;
+pub mod c11;
+pub mod c12;
+pub mod posthoc;
 pub mod c13;
 pub mod c14;
 pub mod common;
@@ -9,7 +17,7 @@ pub mod common;
 use crate::engine::*;
 use crate::sim::scenario::Scenario;
 
-pub const ALL: &[&str] = &["C01", "C02", "C03", "C04", "C13", "C14"];
+pub const ALL: &[&str] = &["C01", "C02", "C03", "C04", "C05", "C06", "C07", "C09", "C10", "C11", "C12", "C13", "C14"];
 
 pub fn run_prop(ctx: &Ctx) -> Option<PropReport> {
     Some(match ctx.prop {
@@ -17,6 +25,13 @@ pub fn run_prop(ctx: &Ctx) -> Option<PropReport> {
         "C02" => c02::run(ctx),
         "C03" => c03::run(ctx),
         "C04" => c04::run(ctx),
+        "C05" => c05::run_prop(ctx),
+        "C06" => c06::run_prop(ctx),
+        "C07" => c07::run_prop(ctx),
+        "C09" => c09::run_prop(ctx),
+        "C10" => c10::run_prop(ctx),
+        "C11" => c11::run_prop(ctx),
+        "C12" => c12::run_prop(ctx),
         "C13" => c13::run(ctx),
         "C14" => c14::run(ctx),
         _ => return None,
@@ -33,6 +48,14 @@ pub fn replay(prop: &str, part: &str, case: &serde_json::Value) -> Option<CaseRe
         ("C03", _) => c03::eval(&sc()?),
         ("C14", _) => c14::replay(part, case)?,
         ("C04", _) => c04::eval(&sc()?),
+        ("C05", _) => c05::eval(&sc()?),
+        ("C06", _) => c06::eval(&sc()?),
+        ("C07", _) => c07::eval(&sc()?),
+        ("C09", "detection") => c09::eval_detect(&sc()?),
+        ("C09", _) => c09::eval_false_alarm(&sc()?),
+        ("C10", _) => c10::eval(&sc()?),
+        ("C11", _) => c11::eval(&sc()?),
+        ("C12", _) => c12::eval(&sc()?),
         _ => return None,
     })
 }
